@@ -99,6 +99,13 @@ class Case:
         if self.start == "one_ready":
             self.act("in2")
             self.act("cer_ok")
+        elif self.start == "two_ready":
+            # both connections of peer 1 complete their exchange, the inbound one first
+            for a in ("in1", "cer_ok", "cea_ok"):
+                self.act(a)
+        elif self.start == "two_ready_rev":
+            for a in ("cea_ok", "in1", "cer_ok"):
+                self.act(a)
         self.check("setup")
 
     def act(self, a):
@@ -345,7 +352,7 @@ class Run:
         return r
 
 
-STARTS = ["dial", "no_dial", "one_ready"]
+STARTS = ["dial", "no_dial", "one_ready", "two_ready", "two_ready_rev"]
 
 
 def run_shard(spec):
@@ -358,7 +365,7 @@ def run_shard(spec):
                 i += 1
                 if i % spec["parts"] != spec["part"]:
                     continue
-                starts = STARTS if d < spec["depth"] else [STARTS[(i // spec["parts"]) % 3]]
+                starts = STARTS if d < spec["depth"] else [STARTS[(i // spec["parts"]) % len(STARTS)]]
                 for st in starts:
                     run.one(st, script)
     else:
